@@ -30,7 +30,7 @@ fn chans(full: bool) -> Vec<String> {
 }
 
 fn nicks(full: bool) -> Vec<String> {
-    let mut v: Vec<String> = ["me", "bob", "zed", "ghost", "bob,bob", "me,bob", "bob,me", "me,me", "bob,yan,bob", "yan,bob", "bob,yan,me,yan"].iter().map(|s| s.to_string()).collect();
+    let mut v: Vec<String> = ["me", "ME", "Bob", "bob", "zed", "ghost", "bob,bob", "me,bob", "bob,me", "me,me", "bob,yan,bob", "yan,bob", "bob,yan,me,yan"].iter().map(|s| s.to_string()).collect();
     if full {
         v.extend(["", "é", "*?*a*", "a.b", "ghost,ghost", "bob,ghost,bob"].iter().map(|s| s.to_string()));
         v.push(long(300));
